@@ -446,3 +446,64 @@ Proof.
       apply (IHc _ _ _ Hmw Hhw Hc); [lia|].
       exists i'. split; [exact Hi'|]. split; [reflexivity|]. split; lia.
 Qed.
+
+(* ------------------------------------------------------------------ in the memory map's own words *)
+
+(* reach_iff_decode for CSR trees: decode_address() names the register, all_resources() its range *)
+Theorem csr_reach_iff_decode n m h l : csr_dom n ->
+  csr_map n = Ok m -> csr_hw n = Ok h -> all_resources m = Ok l ->
+  forall a, 0 <= a < 2 ^ csr_aw n ->
+  forall id off, creach h a = Some (id, off) <->
+    decode_address m a = Some id /\
+    exists i, In i l /\ i_res i = id /\ i_start i <= a < i_end i /\ off = a - i_start i.
+Proof.
+  intros Hdom Hm Hh Hl a Ha id off.
+  pose proof (proj1 (csr_map_good n Hdom m Hm)) as Hwt.
+  rewrite (creach_good n Hdom m h l Hm Hh Hl a Ha id off). split.
+  - intros (i & Hi & Hid & Hr & Ho). split; [|exists i; auto].
+    apply (decode_wf m Hwt l Hl). exists i. auto.
+  - intros (_ & H). exact H.
+Qed.
+
+(* ... and find_resource() its start, when every resource object occurs once in the tree *)
+Theorem csr_reach_iff_find n m h l : csr_dom n ->
+  csr_map n = Ok m -> csr_hw n = Ok h -> all_resources m = Ok l -> NoDup (map i_res l) ->
+  forall a, 0 <= a < 2 ^ csr_aw n ->
+  forall id off, creach h a = Some (id, off) <->
+    decode_address m a = Some id /\
+    exists i, find_resource m id = Ok i /\ off = a - i_start i.
+Proof.
+  intros Hdom Hm Hh Hl Hnd a Ha id off.
+  pose proof (proj1 (csr_map_good n Hdom m Hm)) as Hwt.
+  assert (Huniq : forall i1 i2, In i1 l -> In i2 l -> i_res i1 = i_res i2 -> i1 = i2).
+  { clear - Hnd. induction l as [|x l IH]; intros i1 i2 H1 H2 He; [contradiction|].
+    cbn [map] in Hnd. inversion Hnd as [|? ? Hni Hnd']; subst.
+    destruct H1 as [<-|H1]; destruct H2 as [<-|H2]; auto.
+    - exfalso. apply Hni. rewrite He. apply in_map. exact H2.
+    - exfalso. apply Hni. rewrite <- He. apply in_map. exact H1. }
+  destruct (find_wf m Hwt l Hl id) as (F1 & F2 & F3).
+  rewrite (csr_reach_iff_decode n m h l Hdom Hm Hh Hl a Ha id off). split.
+  - intros (Hd & i & Hi & Hid & Hr & Ho). split; [exact Hd|].
+    destruct F3 as [[i0 Hf]|Hk].
+    + destruct (F1 _ Hf) as [Hi0 Hid0]. assert (i0 = i) by (apply Huniq; auto; congruence). subst i0. eauto.
+    + exfalso. exact (proj1 F2 Hk i Hi Hid).
+  - intros (Hd & i & Hf & Ho). split; [exact Hd|]. destruct (F1 _ Hf) as [Hi Hid].
+    apply (decode_wf m Hwt l Hl) in Hd as (i1 & Hi1 & Hid1 & Hr1).
+    assert (i1 = i) by (apply Huniq; auto; congruence). subst i1. exists i. auto.
+Qed.
+
+(* an address the map leaves unassigned selects nothing, and conversely *)
+Theorem csr_unassigned_iff_unreached n m h l : csr_dom n ->
+  csr_map n = Ok m -> csr_hw n = Ok h -> all_resources m = Ok l ->
+  forall a, 0 <= a < 2 ^ csr_aw n -> (decode_address m a = None <-> creach h a = None).
+Proof.
+  intros Hdom Hm Hh Hl a Ha.
+  pose proof (proj1 (csr_map_good n Hdom m Hm)) as Hwt. split.
+  - intros Hd. destruct (creach h a) as [[id off]|] eqn:E; [|reflexivity].
+    apply (csr_reach_iff_decode n m h l Hdom Hm Hh Hl a Ha) in E as [E _]. congruence.
+  - intros Hc. destruct (decode_address m a) as [id|] eqn:E; [|reflexivity].
+    apply (decode_wf m Hwt l Hl) in E as (i & Hi & Hid & Hr).
+    assert (creach h a = Some (id, a - i_start i)).
+    { apply (creach_good n Hdom m h l Hm Hh Hl a Ha). exists i. auto. }
+    congruence.
+Qed.
